@@ -14,7 +14,9 @@ CHECKS = {
  "C01": (MC, "6 C01", "Every packet of the bounded lattice (15 types x property subsets/orders x short forms x boundary lengths x "
          "remaining-length thresholds) is built through the API, written, read back and compared accessor by accessor with the "
          "PacketAPI model by TLC; the right level because the property is a universally quantified equation between an API "
-         "history and an observation, which the model decides case by case."),
+         "history and an observation, which the model decides case by case. Also at the end of every MC_API setter history (all "
+         "ordered pairs of calls; every call from a packet carrying every field that was written or printed before) and with a "
+         "dictionary of texts in every text field."),
  "C02": (MC, "6 C02", "The bytes WriteTo hands to the writer are read by the strict reference decoder of the specification "
          "(MQTTWire!StrictDecode, itself model-checked against the reference encoder) and must carry exactly the model state."),
  "C03": (MC, "6 C03", "Frames produced by the specification's reference encoder (not by the library) for every abstract wire packet "
@@ -23,9 +25,11 @@ CHECKS = {
          "five-byte length of the sampled base packets) plus direct UnmarshalBinary of every type; a Panic event has no action in "
          "the trace specification."),
  "C05": (MC, "6 C05", "The same inputs under a deterministic step budget (hook H2: 4*len+64 guarded reads), a watchdog and the "
-         "list-length bound, judged by the trace specification; sensors supply the observation, TLA+ the bound."),
+         "list-length bound, judged by the trace specification; sensors supply the observation, TLA+ the bound. A returned packet "
+         "is re-examined at every later read of its stream (it may never hold more list elements than its frame had bytes)."),
  "C06": (MC, "6 C06", "Every Read request of every call on sequences of frames is an RP_Read step of StreamIO whose guard "
-         "(KnownNeed) forbids over-reading; frames in order then io.EOF."),
+         "(KnownNeed) forbids over-reading; frames in order then io.EOF; the same sequences through *bufio.Reader, bytes.Reader, "
+         "bytes.Buffer, strings.Reader, io.LimitedReader (judged per call: exactly one frame taken out of the reader)."),
  "C07": (MC, "6 C07", "All compositions of short frames into chunks (exhaustive to 7/10 bytes), zero-length reads, EOF with the "
          "last bytes: each logged Read is a StreamIO step and the outcome must equal the contiguous one."),
  "C08": ("fault_enumeration", "6 C08", "Every cut offset x {EOF, E} x {with last bytes, next call} x fragmentations of the prefix; "
@@ -33,11 +37,15 @@ CHECKS = {
  "C09": (MC, "6 C09", "TLC proves Verdict = reject (classes a-d) for every generated mutant in the model and the trace "
          "specification requires the real decoder to return an error for it."),
  "C10": (MC, "6 C10", "Writer side of StreamIO: all packets with an accepting writer, small packets with a writer failing after "
-         "every k < L bytes; WriteOutcomeOK decides."),
+         "every k < L bytes; WriteOutcomeOK decides, and MC_Write model-checks the writer state machine (WriteIO.tla) whose "
+         "completed behaviours satisfy that predicate. Histories with writes and String() between the calls; writers with the "
+         "WriteByte / WriteString / ReadFrom method set."),
  "C11": (MC, "6 C11", "Repeated encodings of an unchanged model state (8 in a row, before/after String/Dump/WellFormed) must be "
-         "byte-identical and the accessor record unchanged; cross-process repetition through 16 worker processes."),
+         "byte-identical and the accessor record unchanged; cross-process repetition through worker processes; concurrent "
+         "encodings (the configurations of C13 with a writing goroutine) must equal the sequential one."),
  "C12": (MC, "6 C12", "TLC explores PacketAPI exhaustively per type over all setter histories of depth 2 (thorough 3) with "
-         "boundary arguments; every history is executed and compared after every call."),
+         "boundary arguments, from the constructor's packet, from a packet carrying every field (after a write / print) and from "
+         "the decoded packet; every history is executed and compared after every call, the final frame with what was set."),
  "C13": ("exploration", "6 C13", "Configurations enumerated by TLC, executed under the Go race detector; race freedom is claimed "
          "only for the executions that ran (TLA+ cannot observe unsynchronised memory accesses)."),
  "C14": (MC, "6 C14", "Histories over a pool of packets and buffers with scribbling; after every event the untouched handles "
@@ -66,8 +74,9 @@ def main():
                   "source_commits": hook_commits, "add_only": True},
         "engines": [
             {"name": "tlc-spec", "path": "spec/", "serves_properties": ids,
-             "kind_free_text": "TLA+ specification (Bytes, MQTTWire, PacketAPI, StreamIO, Endpoint), generators (Gen, Gen2, MC_API, "
-                               "MC_Stream) and trace specification (Trace) checked with TLC 1.8.0"},
+             "kind_free_text": "TLA+ specification (Bytes, MQTTWire, PacketAPI, StreamIO, WriteRules, WriteIO, DecodeSteps, Endpoint, as-built "
+                               "layer MQLib), generators and models (Gen, Gen2, MC_API, MC_Stream, MC_Write; StreamIOCount and VBILemma with "
+                               "Apalache) and the trace specification (Trace) checked with TLC 1.8.0"},
             {"name": "mqdrive", "path": "harness/mqdrive", "serves_properties": ids,
              "kind_free_text": "Go interpreter executing TLC-generated programs on the real library and recording ND-JSON traces"}],
         "checks": [],
